@@ -235,6 +235,7 @@ func (fv *FuncVerifier) step(st *State, b *ssa.BasicBlock, ins ssa.Instruction) 
 		p := fv.derefPlace(st, addr, x.Pos(), x.Addr)
 		val.Typ = p.Typ
 		fv.checkGuard(st, st.resolve(p), true, x.Pos())
+		fv.checkWrite(st, st.resolve(p), x.Pos())
 		st.store(p, val)
 	case *ssa.UnOp:
 		st.regs[x] = fv.unop(st, x)
